@@ -1,4 +1,4 @@
-import SgVerif.C47.Model
+import SgVerif.C47.Lemmas
 /-
 C47 — Paje traces are well formed.  Property theorems.
 
@@ -8,8 +8,16 @@ Buffer (all histories of insert / dump, any timestamps):
   THAT HYPOTHESIS DOES NOT HOLD in the real library (see NOTES.md: events for the interval [now-delta, now] are created
   after a forced dump at `now`; and container creation lines bypass the buffer) — `emitted_nondecreasing_needs_hypothesis`
   is the model-level counterexample, the correspondence finds the real ones.
-Automaton: `wf_time_nondecreasing`, `wf_pop_balanced`, `wf_no_use_after_destroy`, `wf_declared_before_use`
-  (acceptance implies each clause; `_partial`: the converse direction `wfOk_iff_spec` is not proved).
+Automaton: `wfOk_iff_spec` — FULL, both directions, all traces: `wfRun` accepts a trace iff it satisfies the declarative
+  `WellFormed` of Spec.lean (per position: declared-before-use for types / entity values / containers and no duplicate
+  type alias or container id; clock non-decreasing; no use after destroy; a pop finds a pushed state — none of which
+  mentions the automaton state).  `wfRun_state_spec`: the state after an accepted trace is exactly what the trace has
+  established (membership of the four id lists, clock = largest timestamp, every push depth).  `wfRun_error_spec`: a
+  rejected trace splits into a well-formed prefix and a first line that violates the clause named by the reported error
+  class (`Violates`, Spec.lean); `wfRun_popEmpty_spec` is its instance for `popEmpty`.
+  `wf_time_nondecreasing`, `wf_pop_balanced`, `wf_no_use_after_destroy`, `wfStep_time`: the earlier soundness statements
+  at the level of the automaton state (kept unchanged).
+Helper lemmas of the automaton part: Lemmas.lean.
 -/
 namespace SgVerif.C47
 
@@ -256,6 +264,40 @@ theorem wf_no_use_after_destroy (s s' : WF) (ts t c : Nat)
       | (apply key _ ‹useCont _ _ _ = Except.ok _›; simp_all)
       | (apply key _ h; simp_all))
 
+/-! ### the automaton accepts exactly the well-formed traces -/
+
+/-- **the automaton is the specification**: `wfRun` from the initial state accepts a trace iff the trace is `WellFormed`
+(Spec.lean: for every position, the line is declared-before-use, not a duplicate definition, not back in time, not on a
+destroyed container, and a pop finds a pushed state — all stated on the lines before it) -/
+theorem wfOk_iff_spec (ls : List Line) : (∃ s, wfRun {} ls = .ok s) ↔ WellFormed ls := by
+  have := wfRun_iff ls [] {} abs_init
+  simpa [WellFormed] using this
+
+/-- **the state after an accepted trace is what the trace has established**: the id lists hold exactly the defined
+types / values, created and destroyed containers (plus the reserved 0), the clock is the largest timestamp, and every
+push depth is the declarative `depthOf` -/
+theorem wfRun_state_spec (ls : List Line) (s : WF) (h : wfRun {} ls = .ok s) :
+    (∀ t, t ∈ s.types ↔ t = 0 ∨ t ∈ definedTypes ls) ∧ (∀ v, v ∈ s.values ↔ v ∈ definedValues ls) ∧
+    (∀ c, c ∈ s.conts ↔ c = 0 ∨ c ∈ createdConts ls) ∧ (∀ c, c ∈ s.dead ↔ c ∈ destroyedConts ls) ∧
+    s.now = maxTs ls ∧ (∀ x, maxTs ls ≤ x ↔ ∀ ts ∈ timestamps ls, ts ≤ x) ∧
+    ∀ k, getDepth s.depth k = depthOf ls k := by
+  have habs : Abs ls s := by simpa using wfRun_abs ls [] {} s abs_init h
+  exact ⟨habs.types, habs.values, habs.conts, habs.dead, habs.now, maxTs_le_iff ls, habs.depth⟩
+
+/-- **a rejected trace: where and why** — the trace splits into a well-formed (accepted) prefix and a first offending
+line, and that line violates the clause of `LineOk` named by the reported error class -/
+theorem wfRun_error_spec (ls : List Line) (e : Why) (h : wfRun {} ls = .error e) :
+    ∃ pre l post, ls = pre ++ l :: post ∧ WellFormed pre ∧ Violates e pre l ∧ ¬ LineOk pre l := by
+  obtain ⟨pre, l, post, s1, e1, e2, e3⟩ := wfRun_error_violates ls e h
+  exact ⟨pre, l, post, e1, (wfOk_iff_spec pre).mp ⟨s1, e2⟩, e3, violates_not_lineOk pre l e e3⟩
+
+/-- `popEmpty` is reported only at a PopState whose stack is empty according to the lines before it -/
+theorem wfRun_popEmpty_spec (ls : List Line) (h : wfRun {} ls = .error .popEmpty) :
+    ∃ pre ts t c post, ls = pre ++ .popState ts t c :: post ∧ WellFormed pre ∧ depthOf pre (c, t) = 0 := by
+  obtain ⟨pre, l, post, e1, hwf, ⟨ts, t, c, e2, e3⟩, _⟩ := wfRun_error_spec ls .popEmpty h
+  subst e2
+  exact ⟨pre, ts, t, c, post, e1, hwf, e3⟩
+
 /-! ### non-vacuity -/
 example : okOps { rbuf := [], out := [] } [.insert 5, .insert 3, .insert 9, .dump false 4, .insert 4, .dump true 9] := by
   simp [okOps, bstep, insertRev, Buf.fwd]
@@ -267,5 +309,32 @@ example : errOf (wfRun {} [.defContainerType 1 0, .createContainer 0 1 1 0, .def
     = some .popEmpty := by decide
 example : errOf (wfRun {} [.defContainerType 1 0, .createContainer 5 1 1 0, .defVariableType 2 1, .variable 3 2 1])
     = some .timeDecreases := by decide
+
+/-- a non-trivial well-formed trace, obtained through `wfOk_iff_spec` from a run of the automaton -/
+example : WellFormed [.defContainerType 1 0, .createContainer 0 1 1 0, .defStateType 2 1, .defEntityValue 3 2,
+    .pushState 5 2 1 3, .popState 7 2 1, .destroyContainer 7 1 1] := (wfOk_iff_spec _).mp ⟨_, rfl⟩
+/-- and the declarative functions on it, without the automaton: one state pushed on (container 1, type 2) before the pop -/
+example : depthOf [.defContainerType 1 0, .createContainer 0 1 1 0, .defStateType 2 1, .defEntityValue 3 2,
+    .pushState 5 2 1 3] (1, 2) = 1 ∧ maxTs [.createContainer 0 1 1 0, .pushState 5 2 1 3, .popState 7 2 1] = 7 := by decide
+/-- a trace that is not well formed (pop without push), through the other direction of `wfOk_iff_spec` -/
+example : ¬ WellFormed [.defContainerType 1 0, .createContainer 0 1 1 0, .defStateType 2 1, .popState 7 2 1] := by
+  intro h
+  obtain ⟨s, hs⟩ := (wfOk_iff_spec _).mpr h
+  cases hs
+/-- not well formed, directly from the specification: use after destroy at the last position -/
+example : ¬ WellFormed [.defContainerType 1 0, .createContainer 0 1 1 0, .defVariableType 2 1,
+    .destroyContainer 3 1 1, .variable 4 2 1] := by
+  intro h
+  have := (h [.defContainerType 1 0, .createContainer 0 1 1 0, .defVariableType 2 1, .destroyContainer 3 1 1]
+    (.variable 4 2 1) [] rfl).alive 1 (by simp [usedConts])
+  exact this (by decide)
+/-- hypotheses of `wfRun_state_spec`, `wfRun_error_spec`, `wfRun_popEmpty_spec` are met by concrete runs -/
+example : ∃ s, wfRun {} [.defContainerType 1 0, .createContainer 4 1 1 0] = .ok s ∧ s.now = 4 := ⟨_, rfl, rfl⟩
+example : wfRun {} [.defContainerType 1 0, .createContainer 0 1 1 0, .defStateType 2 1, .popState 7 2 1]
+    = .error .popEmpty := rfl
+example : wfRun {} [.defContainerType 1 0, .createContainer 5 1 1 0, .defVariableType 2 1, .variable 3 2 1]
+    = .error .timeDecreases := rfl
+example : Violates .timeDecreases [.defContainerType 1 0, .createContainer 5 1 1 0, .defVariableType 2 1]
+    (.variable 3 2 1) := ⟨3, rfl, 5, by decide, by decide⟩
 
 end SgVerif.C47
